@@ -41,6 +41,10 @@ pub struct StLine {
     pub pfine: Option<PFineJ>,
     #[serde(default)]
     pub tqfine: Option<TqFineJ>,
+    #[serde(default)]
+    pub pfine2: Option<PFineJ>,
+    #[serde(default)]
+    pub tqfine2: Option<TqFineJ>,
 }
 #[derive(Deserialize, Debug, Clone)]
 pub struct PFineJ {
@@ -204,11 +208,13 @@ fn judge_stationary_scaled<T: Sc>(idx: usize, l: &StLine, kexp: i32, wexp: i32, 
     }
     let mut ps: Vec<f64> = l.pnum.iter().map(|&v| v as f64 / 1000.0).collect();
     // the probability next to one (only where its quantile is tabulated: the unreplicated instance)
-    let mut t_fine: Option<f64> = None;
-    if let (None, Some(pf), Some(tf)) = (repl, l.pfine.as_ref(), l.tqfine.as_ref()) {
-        if tf.v > 0 {
-            ps.push(1.0 - pf.k as f64 * (2.0f64).powi(-pf.e));
-            t_fine = Some(tf.v as f64 * (10.0f64).powi(-tf.d));
+    let mut t_fine: Vec<f64> = Vec::new();
+    for (pf, tf) in [(l.pfine.as_ref(), l.tqfine.as_ref()), (l.pfine2.as_ref(), l.tqfine2.as_ref())] {
+        if let (None, Some(pf), Some(tf)) = (repl, pf, tf) {
+            if tf.v > 0 {
+                ps.push(1.0 - pf.k as f64 * (2.0f64).powi(-pf.e));
+                t_fine.push(tf.v as f64 * (10.0f64).powi(-tf.d));
+            }
         }
     }
     let nu = repl.map(|r| r.nu).unwrap_or(l.nu) as f64;
@@ -341,7 +347,7 @@ fn judge_stationary_scaled<T: Sc>(idx: usize, l: &StLine, kexp: i32, wexp: i32, 
         // C14: band radius
         let mut prev: Option<Vec<f64>> = None;
         for (pi, (pv, band)) in st.bands.iter().enumerate() {
-            let t = if pi < tq.len() { tq[pi] as f64 / 1e6 } else { t_fine.expect("quantile of the fine probability") };
+            let t = if pi < tq.len() { tq[pi] as f64 / 1e6 } else { t_fine[pi - tq.len()] };
             let mut worst = 0.0f64;
             let mut ok = band.len() == n;
             if ok {
